@@ -63,8 +63,63 @@ def run(repo, chk):
         endpoint(repo, chk, on_write)
 
 
+def alias_ok(func):
+    """A local bound to the buffer (`buf = self._buffers.get(sock)`) stands for the buffer only while the entry it came from is not deleted
+    or re-bound in the same function (afterwards the local is a stale deque that nobody else appends to)."""
+    for n in walk_no_defs(func.node):
+        if isinstance(n, ast.Delete) and any('_buffer' in src(t) for t in n.targets):
+            return False
+        if isinstance(n, (ast.Assign, ast.AugAssign)):
+            for t in (n.targets if isinstance(n, ast.Assign) else [n.target]):
+                if isinstance(t, (ast.Subscript, ast.Attribute)) and ('._buffers[' in src(t) or src(t).endswith('._buffer')):
+                    return False
+        if isinstance(n, ast.Call) and isinstance(n.func, ast.Attribute) and n.func.attr in ('pop', 'clear', 'popitem') and src(n.func.value).endswith('._buffers'):
+            return False
+    return True
+
+
+def buffer_fact(func, t, pol, bufs):
+    """What a branch edge says about the buffer: 'empty', 'nonempty' or None.
+    Recognised spellings of the test: the buffer expression itself (truthiness), a local alias of it, `len(buf) > 0 / == 0 / != 0 / >= 1`,
+    and a local that holds the result of such a comparison (`drained = len(buf) == 0; if drained and …`)."""
+    def is_buf(e):
+        s_ = src(e)
+        if s_ in bufs:
+            return True
+        if isinstance(e, ast.Name) and alias_ok(func):
+            return any(src(v) in bufs for v in pat.deref(func, e) if not isinstance(v, ast.Name) or v.id != e.id)
+        return False
+    if is_buf(t):
+        return 'nonempty' if pol == 'T' else 'empty'
+    if isinstance(t, ast.Name):
+        vs = pat.deref(func, t)
+        if len(vs) == 1 and not (isinstance(vs[0], ast.Name) and vs[0].id == t.id) and isinstance(vs[0], (ast.Compare, ast.UnaryOp)):
+            return buffer_fact(func, vs[0], pol, bufs)
+    if isinstance(t, ast.UnaryOp) and isinstance(t.op, ast.Not):
+        r = buffer_fact(func, t.operand, 'T' if pol == 'F' else 'F', bufs)
+        return r
+    if isinstance(t, ast.Compare) and len(t.ops) == 1 and isinstance(t.left, ast.Call) and call_name(t.left) == 'len' and t.left.args and is_buf(t.left.args[0]):
+        fc = pat.compare_fact(t, pol)
+        if fc is None:
+            return None
+        op, rhs = fc[1], fc[2]
+        if (op, rhs) in (('==', '0'), ('<=', '0'), ('<', '1')):
+            return 'empty'
+        if (op, rhs) in (('>', '0'), ('!=', '0'), ('>=', '1')):
+            return 'nonempty'
+    return None
+
+
 def _buffer_of(on_write):
     for r, c in pat.method_calls(on_write.node, 'popleft'):
+        # `pending = self._buffers.get(sock); … pending.popleft()`: the buffer is what the local was bound to
+        head = r.split('.')[0].split('[')[0]
+        if head != 'self' and r.isidentifier() and alias_ok(on_write):
+            vs = [v for v in pat.deref(on_write, ast.Name(id=r, ctx=ast.Load())) if not isinstance(v, ast.Name)]
+            if len(vs) == 1:
+                t = src(vs[0])
+                m_ = re.match(r'^(.*)\.get\((\w+)\)$', t)
+                return f'{m_.group(1)}[{m_.group(2)}]' if m_ else t
         return r
     return None
 
@@ -80,14 +135,27 @@ def endpoint(repo, chk, on_write):
         bufset.add(f'{m_.group(1)}.get({m_.group(2)})')   # reading without creating a defaultdict entry
     g = on_write.cfg()
     # --- the pop and the hand-over to the write routine
-    pops = [n for n in g.nodes if n.kind == 'stmt' and isinstance(n.ast, ast.Assign) and any(r == buf for r, _c in pat.method_calls(n.ast, 'popleft'))]
-    need(pops, f'C11: {on_write.ref} does not bind the popped payload')
-    pv = src(pops[0].ast.targets[0])
-    wcalls = [n for n in g.nodes if n.kind == 'stmt' and any(r == 'self' and c.args and src(c.args[-1]) == pv for r, c in pat.method_calls(n.ast, '_write'))]
-    p = Q.escapes(g, [pops[0]], lambda n: n in wcalls)
+    def is_pop(c):
+        r = src(c.func.value) if isinstance(c.func, ast.Attribute) and c.func.attr == 'popleft' else None
+        if r is None:
+            return False
+        if r in bufset:
+            return True
+        return r.isidentifier() and alias_ok(on_write) and any(src(v) in bufset for v in pat.deref(on_write, ast.Name(id=r, ctx=ast.Load())))
+    pops = [n for n in g.nodes if n.kind == 'stmt' and isinstance(n.ast, ast.Assign) and any(is_pop(c) for c in calls_in(n.ast))]
+    if pops:
+        pv = src(pops[0].ast.targets[0])
+        wcalls = [n for n in g.nodes if n.kind == 'stmt' and any(r == 'self' and c.args and src(c.args[-1]) == pv for r, c in pat.method_calls(n.ast, '_write'))]
+    else:
+        # the popped payload is handed over directly: `self._write(sock, buf.popleft())`
+        wcalls = [n for n in g.nodes if n.kind == 'stmt' and any(r == 'self' and c.args and isinstance(c.args[-1], ast.Call) and is_pop(c.args[-1])
+                                                                   for r, c in pat.method_calls(n.ast, '_write'))]
+        pops = list(wcalls)
+    need(pops, f'C11: {on_write.ref} does not take a payload from its buffer')
+    p = Q.escapes(g, [pops[0]], lambda n: n in wcalls) if pops[0] not in wcalls else None
     chk.ob('a', on_write.ref, 'the popped payload is handed to the write routine on every path', p is None and bool(wcalls), loc(on_write, pops[0].ast),
            path=pat.path_lines(p, pops[0]) if p else None, discr='pop-handed-over')
-    q = pat.guarded_by(g, pops[0], pat.test_edge(lambda tt, pol: pol == 'T' and src(tt) in bufset))
+    q = pat.guarded_by(g, pops[0], pat.test_edge(lambda tt, pol: buffer_fact(on_write, tt, pol, bufset) == 'nonempty'))
     chk.ob('b', on_write.ref, 'the buffer is popped only when it is non-empty', q is None, loc(on_write, pops[0].ast), discr='pop-guard')
     chk.ob('b', on_write.ref, 'exactly one payload is taken per writability event', len(pops) == 1 and not any(k == 'loop' for k, _a in pops[0].ctx),
            loc(on_write, pops[0].ast), discr='one-per-event')
@@ -114,7 +182,7 @@ def endpoint(repo, chk, on_write):
     chk.ob('b', cls.ref, 'no other buffer operation breaks the FIFO order (pop from the right, insert, append in the write routine, '
                          'appendleft outside it)', not bad, cls.module.relpath, detail='; '.join(src(c) for c in bad), discr='fifo-only')
     # --- d: writer interest
-    addw = [n for n in gw.nodes if n.kind == 'stmt' and any(r == 'self._poller' for r, _c in pat.method_calls(n.ast, 'addWriter'))]
+    addw = [n for n in gw.nodes if n.kind == 'stmt' and any(pat.expand_alias(wh, n, r) == 'self._poller' for r, _c in pat.method_calls(n.ast, 'addWriter'))]
     p = Q.escapes(gw, [gw.entry], lambda n: n in addw, avoid_edge=pat.test_edge(
         lambda tt, pol: (pol == 'T' and 'isWriting' in src(tt)) or (is_file and pat.fact_matches(pat.compare_fact(tt, pol), 'self._poller', ('is', '=='), 'None'))
         or (len(wh.params) > 2 and pat.fact_matches(pat.compare_fact(tt, pol), wh.params[1], ('not in',), 'self._clients'))
@@ -122,25 +190,31 @@ def endpoint(repo, chk, on_write):
     chk.ob('d', wh.ref, 'write() registers writer interest unless it is already registered', p is None and bool(addw), loc(wh, wh.node),
            path=pat.path_lines(p) if p else None, discr='interest-on-write')
     # drain path in on_write: buffer empty ⇒ deferred close performed, else interest removed
-    empty_edges = [e for n in g.nodes if n.kind == 'test' and src(n.ast) in bufset for e in n.succ if e.kind == 'F']
+    empty_edges = [e for n in g.nodes if n.kind == 'test' for e in n.succ if e.kind in ('T', 'F') and buffer_fact(on_write, n.ast, e.kind, bufset) == 'empty']
     closes = [n for n in g.nodes if n.kind == 'stmt' and any(r == 'self' for r, _c in pat.method_calls(n.ast, '_close'))]
     remw = [n for n in g.nodes if n.kind == 'stmt' and any(r == 'self._poller' for r, _c in pat.method_calls(n.ast, 'removeWriter'))]
     after_write = [e for e in empty_edges if any(Q.reaches(w, e.src) for w in wcalls)]
     need(after_write, f'C11.c: {on_write.ref} does not re-test the buffer after writing')
     deferred_T = pat.test_edge(lambda tt, pol: pol == 'T' and ('_closeflag' in src(tt) or '_closeq' in src(tt)))
     deferred_F = pat.test_edge(lambda tt, pol: pol == 'F' and ('_closeflag' in src(tt) or '_closeq' in src(tt)))
+    def contra(e):
+        # a second test of the same unmodified local cannot come out the other way (`drained` tested twice)
+        return lambda e2: isinstance(e.src.ast, ast.Name) and e2.src.kind == 'test' and isinstance(e2.src.ast, ast.Name) and e2.src.ast.id == e.src.ast.id and e2.kind != e.kind
     for e in after_write:
-        p = Q.escapes(g, [e.dst], lambda n: n in closes, avoid_edge=deferred_F)
+        # an "empty" branch that can only be reached after "no close is pending" was established has nothing to perform
+        if all(Q.reachable_without(g, e.src, start=w_, avoid_edge=lambda e2, e=e: deferred_F(e2) or contra(e)(e2)) is None for w_ in wcalls):
+            continue
+        p = Q.escapes(g, [e.dst], lambda n: n in closes, avoid_edge=lambda e2, e=e: deferred_F(e2) or contra(e)(e2))
         chk.ob('c', on_write.ref, 'once the buffer has drained a deferred close is performed', p is None and bool(closes), loc(on_write, e.src.ast),
                path=pat.path_lines(p) if p else None, discr='deferred-close-performed')
-        p = Q.escapes(g, [e.dst], lambda n: n in remw, avoid_edge=lambda e2: deferred_T(e2) or (e2.src.kind == 'test' and e2.kind == 'F' and 'isWriting' in src(e2.src.ast)))
+        p = Q.escapes(g, [e.dst], lambda n: n in remw, avoid_edge=lambda e2, e=e: deferred_T(e2) or contra(e)(e2) or (e2.src.kind == 'test' and e2.kind == 'F' and 'isWriting' in src(e2.src.ast)))
         chk.ob('d', on_write.ref, 'once the buffer has drained (and no close is pending) writer interest is removed', p is None and bool(remw),
                loc(on_write, e.src.ast), path=pat.path_lines(p) if p else None, discr='interest-removed')
     for cn in closes:
-        q = pat.guarded_by(g, cn, pat.test_edge(lambda tt, pol: pol == 'F' and src(tt) in bufset))
+        q = pat.guarded_by(g, cn, pat.test_edge(lambda tt, pol: buffer_fact(on_write, tt, pol, bufset) == 'empty'))
         chk.ob('c', on_write.ref, 'the drain path closes only when the buffer is empty', q is None, loc(on_write, cn.ast), discr='close-when-empty')
     for rn in remw:
-        q = pat.guarded_by(g, rn, pat.test_edge(lambda tt, pol: pol == 'F' and src(tt) in bufset))
+        q = pat.guarded_by(g, rn, pat.test_edge(lambda tt, pol: buffer_fact(on_write, tt, pol, bufset) == 'empty'))
         chk.ob('d', on_write.ref, 'writer interest is removed only when the buffer is empty', q is None, loc(on_write, rn.ast), discr='remove-when-empty')
     # --- c: close()
     ch = cls.lookup('close')
@@ -151,7 +225,7 @@ def endpoint(repo, chk, on_write):
     ccl = [n for n in gc.nodes if n.kind == 'stmt' and any(r == 'self' for r, _c in pat.method_calls(n.ast, '_close'))]
     need(ccl, f'C11.c: {ch.ref} never closes')
     for cn in ccl:
-        q = pat.guarded_by(gc, cn, pat.test_edge(lambda tt, pol: pol == 'F' and src(tt) in bufs))
+        q = pat.guarded_by(gc, cn, pat.test_edge(lambda tt, pol: buffer_fact(ch, tt, pol, bufs) == 'empty'))
         chk.ob('c', ch.ref, 'close() closes at once only when nothing is buffered', q is None, loc(ch, cn.ast), path=pat.path_lines(q) if q else None,
                discr='immediate-iff-empty')
     # the buffer consulted, the socket closed and the socket recorded for a deferred close are the same socket
@@ -175,10 +249,12 @@ def endpoint(repo, chk, on_write):
                                                           any(r == 'self._closeq' for r, _c in pat.method_calls(n.ast, 'append')))]
     bad = None
     for n in gc.nodes:
-        if n.kind == 'test' and src(n.ast) in bufs:
+        if n.kind == 'test':
             for e in n.succ:
-                if e.kind == 'T':
-                    bad = Q.escapes(gc, [e.dst], lambda m: m in rec, avoid_edge=lambda e2: e2.src.kind == 'test' and (
+                if e.kind in ('T', 'F') and buffer_fact(ch, n.ast, e.kind, bufs) == 'nonempty':
+                    if e.dst in rec:
+                        continue
+                    bad = bad or Q.escapes(gc, [e.dst], lambda m: m in rec, avoid_edge=lambda e2: e2.src.kind == 'test' and (
                         (e2.kind == 'T' and '_closeflag' in src(e2.src.ast)) or (e2.kind == 'F' and pat.compare_fact(e2.src.ast, e2.kind) is not None
                                                                                and '_closeq' in src(e2.src.ast))), extra_exit=lambda m: m.kind == 'for')
     chk.ob('c', ch.ref, 'with data still buffered close() records a deferred close', bool(rec) and bad is None, loc(ch, ch.node),
@@ -206,7 +282,7 @@ def endpoint(repo, chk, on_write):
             if not drops:
                 continue
             chk.touch(m_)
-            q = pat.guarded_by(gm, n, pat.test_edge(lambda tt, pol: pol == 'F' and (src(tt) in bufset or src(tt).replace('sock', 'sock') in bufset)))
+            q = pat.guarded_by(gm, n, pat.test_edge(lambda tt, pol, m_=m_: buffer_fact(m_, tt, pol, bufset) == 'empty'))
             chk.ob('d', m_.ref, f'`{src(drops[0])}` outside the close routine does not end the flushing of buffered data (buffer known empty, or only the read interest is dropped)',
                    q is None, loc(m_, n.ast), discr=f'writer-kept:{m_.name}')
     # --- c: a connection leaves the client list (outside _close) only when nothing is buffered for it: the write path serves client sockets only
@@ -220,7 +296,7 @@ def endpoint(repo, chk, on_write):
                 sv = src(c_.args[0]) if c_.args else 'sock'
                 bs = {f'self._buffers[{sv}]', f'self._buffers.get({sv})'}
                 chk.touch(m_)
-                q = pat.guarded_by(gm, n, pat.test_edge(lambda tt, pol: pol == 'F' and src(tt) in bs))
+                q = pat.guarded_by(gm, n, pat.test_edge(lambda tt, pol, m_=m_, bs=bs: buffer_fact(m_, tt, pol, bs) == 'empty'))
                 chk.ob('c', m_.ref, 'a connection is taken out of the client list (for a TLS upgrade) only after its buffer has drained', q is None, loc(m_, n.ast),
                        path=pat.path_lines(q) if q else None, discr=f'leaves-clients-drained:{m_.name}')
     # --- e: the read path: end of stream is a close *request*
@@ -230,7 +306,7 @@ def endpoint(repo, chk, on_write):
         gr = rd.cfg()
         for cn in [n for n in gr.nodes if n.kind == 'stmt' and any(r == 'self' for r, _c in pat.method_calls(n.ast, '_close'))]:
             in_exc = any(k == 'except' for k, _a in cn.ctx)
-            q = pat.guarded_by(gr, cn, pat.test_edge(lambda tt, pol: pol == 'F' and (src(tt) in bufs or src(tt) in bufset)))
+            q = pat.guarded_by(gr, cn, pat.test_edge(lambda tt, pol: buffer_fact(rd, tt, pol, set(bufs) | set(bufset)) == 'empty'))
             chk.ob('e', rd.ref, 'the read path tears the endpoint down at once only on an error; end of stream goes through close(), which waits for the buffer',
                    in_exc or q is None, loc(rd, cn.ast), discr='read-eof-defers')
         reqs = [n for n in gr.nodes if n.kind == 'stmt' and any(r == 'self' for r, _c in pat.method_calls(n.ast, 'close'))]
@@ -267,6 +343,10 @@ def rule_a(chk, wr, buf, is_file):
             if r != buf or not c.args:
                 continue
             a = c.args[0]
+            if isinstance(a, ast.Name) and a.id != dv:
+                vs = pat.deref(wr, a)          # `unsent = data[sent:]; buf.appendleft(unsent)`
+                if len(vs) == 1:
+                    a = vs[0]
             if src(a) == dv:
                 requeue_whole.append(n)
             elif isinstance(a, ast.Subscript) and src(a.value) == dv and isinstance(a.slice, ast.Slice) and a.slice.upper is None \
@@ -311,6 +391,8 @@ def rule_a(chk, wr, buf, is_file):
         return
     h = xedges[0].dst
     en = h.ast.name
+    _ERRNO_ALIASES[en] = {src(n.targets[0]) for n in walk_no_defs(wr.node) if isinstance(n, ast.Assign) and isinstance(n.targets[0], ast.Name)
+                          and src(n.value) in (f'{en}.args[0]', f'{en}.errno')}
     transient = TRANSIENT_FILE if is_file else TRANSIENT_SOCK
     for errno in sorted(set(map(canon, transient))) + list(FATAL):
         def contradicts(e2, errno=errno):
@@ -342,12 +424,15 @@ def rule_a(chk, wr, buf, is_file):
                    p2 is None and bool(closes), loc(wr, h.ast), path=pat.path_lines(p2, h) if p2 else None, discr=f'errno-class=FATAL-closes:{errno}')
 
 
+_ERRNO_ALIASES = {}     # exception variable -> locals holding its errno (filled per write routine)
+
+
 def _errno_test(t, en):
     """(names, negated) for tests `e.args[0] in (A, B)` / `not in` / `== A` / `!= A` on the caught exception."""
     if not (isinstance(t, ast.Compare) and len(t.ops) == 1):
         return None
     left = src(t.left)
-    if left not in (f'{en}.args[0]', f'{en}.errno'):
+    if left not in (f'{en}.args[0]', f'{en}.errno') and not (isinstance(t.left, ast.Name) and t.left.id in _ERRNO_ALIASES.get(en, ())):
         return None
     c = t.comparators[0]
     op = t.ops[0]
